@@ -162,6 +162,9 @@ def instances(types, reduced=False):
         cands += [P('NONE', TY(t)), P('LEFT', TY(t)), P('RIGHT', TY(t)), P('NIL', TY(t)), P('UNPACK', TY(t))]
         if not reduced:
             cands += [P('EMPTY_SET', TY(t)), P('EMPTY_MAP', TY(t), TY(STRING))]
+    if types and types[0] == BYTES:
+        # the same bytes unpacked at several types that share a head constructor (results must not be confused)
+        cands += [P('UNPACK', TY(('pair', NAT, NAT))), P('UNPACK', TY(('list', NAT))), P('UNPACK', TY(('option', NAT)))]
     if types:
         cands.append(P('CAST', TY(types[0])))
         if not reduced:
